@@ -90,6 +90,15 @@ Theorem C18_value_depends_on_sets_only :
 Proof. split; [exact largest_adj_ext|exact largest_nodes_perm]. Qed.
 Print Assumptions C18_value_depends_on_sets_only.
 
+(* the components are the classes of an equivalence relation on the vertices: two components are
+   equal as sets or disjoint (so "largest connected component" is well defined) *)
+Theorem C18_components_are_classes :
+  forall nodes es v w, wf nodes es -> In v nodes -> In w nodes ->
+    (In w (comp nodes es v) -> forall x, In x (comp nodes es v) <-> In x (comp nodes es w)) /\
+    (~ In w (comp nodes es v) -> forall x, In x (comp nodes es v) -> ~ In x (comp nodes es w)).
+Proof. exact comp_classes. Qed.
+Print Assumptions C18_components_are_classes.
+
 (* non-vacuity *)
 Example C18_nonvacuous :
   let nodes := [0;1;2;3;4;5] in
